@@ -474,11 +474,13 @@ inductive XOp
   | appendFieldFrom (c : Nat) (n : Name) (d : Nat) (m : Name)   -- conts[c].append_field(n, conts[d][m])
   | setItemFrom (c : Nat) (n : Name) (d : Nat) (m : Name)       -- conts[c][n] = conts[d][m]
   | newShared (d : Nat) (m : Name)   -- DataFieldRecordArray({m: conts[d][m]}, copy=False); also: the caller keeps conts[d][m]
+  | poke (d : Nat) (m : Name) (k : Nat) (v : Int)   -- the caller writes into the live array `conts[d][m]`: `conts[d][m][k] = v`
   deriving Repr
 
 /-- the only operation that writes into existing arrays -/
 def XOp.writesThrough : XOp → Bool
   | .base (.setSel _ _ _) => true
+  | .poke _ _ _ _ => true
   | _ => false
 
 /-- `append_field(n, arr)` with `arr` = the array at location `l` -/
@@ -523,6 +525,19 @@ def stepX (s : St) : XOp → St × Except Err Out
         match s.heap[l]? with
         | none => (s, .error .cont)
         | some col => (⟨s.heap, s.conts ++ [⟨[(m, l)], [m], col.vals.length, none⟩]⟩, .ok (.cont s.conts.length))
+  | .poke d m k v =>
+    -- `__getitem__` hands out the stored ndarray itself: the caller's assignment goes into the heap cell
+    match s.conts[d]? with
+    | none => (s, .error .cont)
+    | some src =>
+      match src.fields.lookup m with
+      | none => (s, .error .key)
+      | some l =>
+        match s.heap[l]? with
+        | none => (s, .error .cont)
+        | some col =>
+          if k < col.vals.length then (⟨s.heap.set l ⟨col.dt, col.vals.set k (castVal col.dt v)⟩, s.conts⟩, .ok .unit)
+          else (s, .error .index)
 
 def runX (s : St) : List XOp → St
   | [] => s
@@ -552,6 +567,16 @@ def stepTX (ts : List Table) : XOp → List Table × Except Err Out
       match src.cols.lookup m with
       | none => (ts, .error .key)
       | some col => stepT ts (.new [(m, col)])
+  | .poke d m k v =>
+    match ts[d]? with
+    | none => (ts, .error .cont)
+    | some src =>
+      match src.cols.lookup m with
+      | none => (ts, .error .key)
+      | some col =>
+        if k < col.vals.length then
+          (ts.set d ⟨src.len, src.cols.map fun p => if p.1 == m then (p.1, ⟨col.dt, col.vals.set k (castVal col.dt v)⟩) else p⟩, .ok .unit)
+        else (ts, .error .index)
 
 
 /-! ### read-only arrays and the order of checks and writes
@@ -565,6 +590,10 @@ def roBlocked (ro : List Loc) (s : St) : XOp → Bool
   | .base (.setSel c _ _) =>
     match s.conts[c]? with
     | some cont => cont.fields.any fun p => ro.contains p.2
+    | none => false
+  | .poke d m _ _ =>
+    match (s.conts[d]?).bind (fun c => c.fields.lookup m) with
+    | some l => ro.contains l
     | none => false
   | _ => false
 
